@@ -240,7 +240,7 @@ private:
     const Type* typeOfStringLiteral(StringLiteral::EncodingPrefix encodingSuffix);
 
     bool isNULLPointerConstant(const SyntaxNode* node);
-    bool isAssignableType(const Type* ty, const SyntaxNode* node);
+    bool isAssignableType(const Type* ty, const SyntaxNode* node, bool isMember = false);
     bool isTypeAssignableFromOtherType(const Type* ty,
                                        const Type* otherTy,
                                        const SyntaxNode* node);
